@@ -26,4 +26,3 @@ func SyntaxErrors(text string) []string {
 	p.CompilationUnit()
 	return el.errs
 }
-
